@@ -347,9 +347,9 @@ def import_clauses(ctx, res, src_prop, src_clauses, prop, cid, kind, title, floo
             return mod.run(ctx)
         except Exception:
             part = LAST_RESULT[0]
-            if part is not None and part.prop == src_prop:
-                return part
-            raise
+            if part is not None and part.prop == src_prop and part.findings:
+                return part       # a violation was established before the source run lost an anchor: restate what it found
+            raise                 # nothing found and an anchor lost: the importing check is analysis-broken as well, never silently green
         finally:
             ctx._import_depth -= 1
     try:
